@@ -73,7 +73,8 @@ def _unary_work(payload):
             try:
                 msgs = judge_unary(gens, n)
                 if kept is not None and not (np.array_equal(kept[0][0], kept[1][0]) and np.array_equal(kept[0][1], kept[1][1])):
-                    msgs.append("the arrays returned by an earlier expand() call (for %s) changed when expand() was called for another stabilizer" % (kept[2],))
+                    fails.append(("the arrays returned by an earlier expand() call (for %s) changed when expand() was called for %s" % (kept[2], M.gens_str(gens, n)),
+                                  {"kind": "kept_expand", "n": n, "first": kept[2], "second": M.gens_str(gens, n)}))
                     kept = None
                 if kept is None or cnt % 7 == 0:
                     res = lib_stab(gens, n).expand()
@@ -219,4 +220,15 @@ def replay_pair(body):
     return "; ".join(msgs) if msgs else None
 
 
-REPLAY = {"unary": replay_unary, "pair": replay_pair}
+def replay_kept(body):
+    n = body["n"]
+    a = lib_stab(M.parse_gens(body["first"]), n).expand()
+    snap = (np.array(a[0], copy=True), np.array(a[1], copy=True))
+    judge_unary(M.parse_gens(body["second"]), n)
+    lib_stab(M.parse_gens(body["second"]), n).expand()
+    if np.array_equal(a[0], snap[0]) and np.array_equal(a[1], snap[1]):
+        return None
+    return "the arrays returned by expand() for %s changed when expand() was called for %s" % (body["first"], body["second"])
+
+
+REPLAY = {"unary": replay_unary, "pair": replay_pair, "kept_expand": replay_kept}
